@@ -100,6 +100,15 @@ func runPropertyRaw(prop, tier string, forBaseline bool) *Report {
 		inBase[n] = true
 	}
 	generated := map[string]bool{}
+	claimOf := func(name string) string {
+		if k := strings.LastIndex(name, "@"); k >= 0 {
+			return name[:k]
+		}
+		return name
+	}
+	violated := map[string][]*Obligation{}
+	violatedRes := map[string]*FuncResult{}
+	var violatedOrder []string
 	assume := map[string]bool{}
 	brokenFunc := map[string]string{}
 	for _, r := range results {
@@ -120,7 +129,7 @@ func runPropertyRaw(prop, tier string, forBaseline bool) *Report {
 			rep.Notes = append(rep.Notes, r.Key+": "+n)
 		}
 		for _, o := range r.Obls {
-			generated[o.Name] = true
+			generated[claimOf(o.Name)] = true
 			rep.SolverS += o.Time
 			if o.Time > rep.SolverMax {
 				rep.SolverMax = o.Time
@@ -129,7 +138,7 @@ func runPropertyRaw(prop, tier string, forBaseline bool) *Report {
 				rep.VacRun++
 				if o.Status == "discharged" {
 					rep.VacPass++
-				} else if inBase[o.Name] && !forBaseline {
+				} else if inBase[claimOf(o.Name)] && !forBaseline {
 					rep.Undecided = append(rep.Undecided, o.Name+" (vacuity cover no longer satisfiable: "+fmt.Sprint(o.Answers)+")")
 				}
 				continue
@@ -158,27 +167,39 @@ func runPropertyRaw(prop, tier string, forBaseline bool) *Report {
 				rep.Undecided = append(rep.Undecided, o.Name)
 				continue
 			}
-			if k, ok := knownOpen[o.Name]; ok {
+			k, ok := knownOpen[o.Name]
+			if !ok {
+				k, ok = knownOpen[claimOf(o.Name)]
+			}
+			if ok {
 				rep.Known++
 				rep.Lines = append(rep.Lines, fmt.Sprintf("KNOWN-FINDING: property=%s %s %s", prop, o.Name, k.What))
 				rep.KnownLines = append(rep.KnownLines, o.Name+": "+k.What)
 				continue
 			}
-			if inBase[o.Name] {
-				rep.Violations++
+			if inBase[claimOf(o.Name)] {
 				rep.Obligations++
-				path := writeReplay(rep, o, r, s)
-				suffix := ""
-				if !replayHasInput(path) {
-					suffix = " no-failing-input-found"
+				c := claimOf(o.Name)
+				if _, seen := violated[c]; !seen {
+					violatedOrder = append(violatedOrder, c)
 				}
-				rep.Lines = append(rep.Lines, fmt.Sprintf("VIOLATION property=%s replay=%s%s", prop, path, suffix))
+				violated[c] = append(violated[c], o)
+				violatedRes[c] = r
 				continue
 			}
 			rep.Undecided = append(rep.Undecided, o.Name)
 			rep.Lines = append(rep.Lines, fmt.Sprintf("UNDECIDED property=%s obligation=%s status=%s %s (%s)", prop, o.Name, o.Status, o.Pos, o.Desc))
 		}
 		rep.Funcs = append(rep.Funcs, fsu)
+	}
+	for _, c := range violatedOrder {
+		rep.Violations++
+		path := writeReplay(rep, c, violated[c], violatedRes[c], s)
+		suffix := ""
+		if !replayHasInput(path) {
+			suffix = " no-failing-input-found"
+		}
+		rep.Lines = append(rep.Lines, fmt.Sprintf("VIOLATION property=%s replay=%s%s", prop, path, suffix))
 	}
 	if !forBaseline {
 		// baseline obligations that were not generated at all
@@ -210,7 +231,7 @@ func runPropertyRaw(prop, tier string, forBaseline bool) *Report {
 }
 
 func replayDir(prop string) string {
-	d := filepath.Join(verifDir, "replays", prop)
+	d := filepath.Join(outDir, "replays", prop)
 	os.MkdirAll(d, 0o755)
 	return d
 }
@@ -287,9 +308,9 @@ func writeEvidence(rep *Report) {
 	if rep.Fatal != "" {
 		ev["fatal"] = rep.Fatal
 	}
-	os.MkdirAll(filepath.Join(verifDir, "evidence"), 0o755)
+	os.MkdirAll(filepath.Join(outDir, "evidence"), 0o755)
 	b, _ := json.MarshalIndent(ev, "", " ")
-	os.WriteFile(filepath.Join(verifDir, "evidence", rep.Prop+".json"), b, 0o644)
+	os.WriteFile(filepath.Join(outDir, "evidence", rep.Prop+".json"), b, 0o644)
 }
 
 func round3(f float64) float64 { return float64(int(f*1000+0.5)) / 1000 }
